@@ -4,6 +4,7 @@ package main
 
 import (
 	"bytes"
+	"crypto/sha256"
 	"encoding/binary"
 	"encoding/hex"
 	"errors"
@@ -15,8 +16,11 @@ import (
 
 	"github.com/nspcc-dev/neofs-node/pkg/local_object_storage/shard"
 	"github.com/nspcc-dev/neofs-node/pkg/local_object_storage/shard/mode"
+	"github.com/nspcc-dev/neofs-sdk-go/checksum"
 	apistatus "github.com/nspcc-dev/neofs-sdk-go/client/status"
+	cid "github.com/nspcc-dev/neofs-sdk-go/container/id"
 	"github.com/nspcc-dev/neofs-sdk-go/object"
+	oid "github.com/nspcc-dev/neofs-sdk-go/object/id"
 )
 
 // chunkReader hands out the stream in the given chunk sizes: one Read returns at most
@@ -94,6 +98,8 @@ type c46Case struct {
 	Err       int           `json:"err"` // 0 nil, 1 invalid magic, 2 io.EOF, 3 io.ErrUnexpectedEOF, 4 other
 	Stored    []string      `json:"stored"`
 	Engine    bool          `json:"engine"`
+	Big       bool          `json:"big"`       // size-class case (objects at buffer-size-like boundaries)
+	ObjSizes  []int         `json:"obj_sizes"` // encoded sizes of the objects put
 }
 
 func errClass46(err error) int {
@@ -224,9 +230,191 @@ func payloadLen(r *rng) int {
 	}
 }
 
-func c46One(r *rng, id int, forceKind int) c46Case {
+
+// ---------------------------------------------------------------- size classes
+//
+// Besides the small random objects the generator places objects whose ENCODED size (the
+// length of the record body in the dump) sits at buffer-size-like boundaries: B+d for
+// B a power of two (4 KiB, 64 KiB, 1 MiB, ...) and d in -5..+1, so that both the body
+// (B-1, B, B+1) and the record = 4-byte size field + body (B-4+4 = B, ...) cross B, plus
+// random sizes in between. Their payloads are low-entropy (one fill byte with random
+// head, tail and islands): the driver passes the REAL dump bytes to Coq losslessly as a
+// run-length literal, a literal of 1 MiB of random bytes would take minutes to parse.
+
+var boundaryDeltas = []int{-5, -4, -3, -2, -1, 0, 1}
+
+type c46Spec struct {
+	targets []int // encoded sizes of the objects to put (0 = small random object); nil = random small shard
+	big     bool  // restrict chunkings to ones with few chunks, clean or body-damaged streams only
+}
+
+func lowEntropyPayload(r *rng, n int) []byte {
+	p := make([]byte, n)
+	fill := byte(r.u64())
+	for i := range p {
+		p[i] = fill
+	}
+	h, t := r.intn(9), r.intn(9)
+	for i := 0; i < h && i < n; i++ {
+		p[i] = byte(r.u64())
+	}
+	for i := 0; i < t && i < n; i++ {
+		p[n-1-i] = byte(r.u64())
+	}
+	for k := r.intn(3); k > 0 && n > 0; k-- {
+		at := r.intn(n)
+		for i := 0; i < 1+r.intn(4) && at+i < n; i++ {
+			p[at+i] = byte(r.u64())
+		}
+	}
+	return p
+}
+
+// mkObjectSized builds an object whose Marshal() is exactly target bytes long.
+func mkObjectSized(r *rng, cnr cid.ID, target int) *object.Object {
+	var id oid.ID
+	copy(id[:], r.bytes(32))
+	if id.IsZero() {
+		id[0] = 1
+	}
+	build := func(plen, pad int) *object.Object {
+		obj := object.New(cnr, mkOwner())
+		obj.SetID(id)
+		if pad > 0 {
+			obj.SetAttributes(object.NewAttribute("p", string(bytes.Repeat([]byte{'x'}, pad))))
+		}
+		payload := lowEntropyPayload(r, plen)
+		obj.SetPayload(payload)
+		obj.SetPayloadSize(uint64(len(payload)))
+		obj.SetPayloadChecksum(checksum.NewSHA256(sha256.Sum256(payload)))
+		return obj
+	}
+	for pad := 0; pad < 4; pad++ {
+		plen := target - 160
+		if plen < 0 {
+			plen = 0
+		}
+		for it := 0; it < 6; it++ {
+			o := build(plen, pad)
+			got := len(o.Marshal())
+			if got == target {
+				return o
+			}
+			plen += target - got
+			if plen < 0 {
+				break
+			}
+		}
+	}
+	fatal("c46: cannot build an object of encoded size %d", target)
+	return nil
+}
+
+// chunkings for big streams: few chunks (the size list becomes a Coq literal), placed
+// where they matter: block sizes equal to / next to the usual buffer sizes, and cuts
+// right before / inside / after the size field of every record.
+func genSizesBig(r *rng, stream []byte) []int {
+	total := len(stream)
+	var sizes []int
+	switch r.intn(6) {
+	case 0:
+		return nil
+	case 1: // halves
+		for left := total; left > 0; {
+			n := (left + 1) / 2
+			sizes = append(sizes, n)
+			left -= n
+		}
+	case 2: // fixed blocks
+		blocks := []int{4096, 32768, 65536, 65537, 65535, 1 << 20, 1<<20 + 1}
+		b := blocks[r.intn(len(blocks))]
+		for b < total/300 {
+			b *= 2
+		}
+		for left := total; left > 0; left -= b {
+			sizes = append(sizes, b)
+		}
+	case 3, 4: // cuts around the record boundaries
+		pos := 0
+		cut := func(at int) {
+			if at > pos && at < total {
+				sizes = append(sizes, at-pos)
+				pos = at
+			}
+		}
+		for _, ol := range flatOffsets(stream) {
+			cut(ol[0] - 4 - r.intn(3))      // just before / at the size field
+			cut(ol[0] - 4 + 1 + r.intn(3))  // inside the size field
+			cut(ol[0] + r.intn(3))          // first bytes of the body
+			if ol[1] > 8 {
+				cut(ol[0] + ol[1] - 1 - r.intn(5)) // last bytes of the body
+			}
+		}
+	default: // a few big chunks then the rest
+		k := 1 + r.intn(4)
+		for i := 0; i < k; i++ {
+			sizes = append(sizes, 1+r.intn(total+1))
+		}
+	}
+	return sizes
+}
+
+// c46BigSpecs: the size-class cases of a run. The 64 KiB and 4 KiB boundary sets are
+// complete in every run; the 1 MiB boundary, the other powers of two and the random
+// in-between sizes sweep deterministically with the seed (7 consecutive seeds cover every
+// delta of 1 MiB; 7*9 every delta of every other power).
+func c46BigSpecs(seed uint64) []c46Spec {
+	r := newRng(seed ^ 0xB16B16)
+	at := func(b int, ds ...int) []int {
+		var t []int
+		for _, d := range ds {
+			t = append(t, b+d)
+		}
+		return t
+	}
+	mid := func() int {
+		switch r.intn(3) {
+		case 0:
+			return 4200 + r.intn(60000)
+		case 1:
+			return 66000 + r.intn(200000)
+		default:
+			return 600 + r.intn(3400)
+		}
+	}
+	if thorough() {
+		var sp []c46Spec
+		for _, b := range []int{512, 1 << 10, 2 << 10, 4 << 10, 8 << 10, 16 << 10, 32 << 10, 64 << 10, 128 << 10, 256 << 10} {
+			sp = append(sp, c46Spec{targets: append(at(b, boundaryDeltas...), 0), big: true})
+		}
+		for _, b := range []int{512 << 10, 1 << 20, 2 << 20} {
+			sp = append(sp, c46Spec{targets: append(at(b, -5, -2, 0), 0), big: true},
+				c46Spec{targets: append(at(b, -4, -3), 0, b-1, b+1), big: true})
+		}
+		for i := 0; i < 6; i++ {
+			sp = append(sp, c46Spec{targets: []int{mid(), 0, mid(), mid()}, big: true})
+		}
+		return sp
+	}
+	pows := []int{512, 1 << 10, 2 << 10, 8 << 10, 16 << 10, 32 << 10, 128 << 10, 256 << 10, 512 << 10}
+	d1 := boundaryDeltas[seed%7]
+	pw := pows[(seed/7)%9]
+	d2 := boundaryDeltas[(seed+3)%7]
+	return []c46Spec{
+		{targets: append(at(64<<10, -5, -3, -1, 1), 0), big: true},
+		{targets: append([]int{0}, at(64<<10, -4, -2, 0)...), big: true},
+		{targets: append(at(4<<10, boundaryDeltas...), 0), big: true},
+		{targets: []int{0, 1<<20 + d1, 0}, big: true},
+		{targets: []int{pw + d2, 0, mid(), mid()}, big: true},
+	}
+}
+
+const c46BigIDBase = 1000
+
+func c46One(r *rng, id int, forceKind int, spec c46Spec) c46Case {
 	c := c46Case{ID: id, WC: r.coin(1, 2), WCB: r.coin(1, 3), Ign: r.coin(1, 2), Eager: r.coin(1, 4)}
 	c.Objs, c.Perm, c.Recs, c.Sizes, c.Oracle, c.Stored = []string{}, []int{}, [][2]int{}, []int{}, []oracleEntry{}, []string{}
+	c.Big, c.ObjSizes = spec.big, []int{}
 
 	// ---- source shard
 	dirA := tempDir()
@@ -236,14 +424,28 @@ func c46One(r *rng, id int, forceKind int) c46Case {
 	if r.coin(1, 12) {
 		nobj = 0
 	}
+	if spec.targets != nil {
+		nobj = len(spec.targets)
+		// the order in which the sizes are put is random
+		for i := nobj - 1; i > 0; i-- {
+			j := r.intn(i + 1)
+			spec.targets[i], spec.targets[j] = spec.targets[j], spec.targets[i]
+		}
+	}
 	byBytes := map[string]int{}
 	flushAt := -1
 	if c.WC && nobj > 1 {
 		flushAt = r.intn(nobj)
 	}
 	for i := 0; i < nobj; i++ {
-		o := mkObject(r, mkCID(r, 3), payloadLen(r))
+		var o *object.Object
+		if spec.targets != nil && spec.targets[i] > 0 {
+			o = mkObjectSized(r, mkCID(r, 3), spec.targets[i])
+		} else {
+			o = mkObject(r, mkCID(r, 3), payloadLen(r))
+		}
 		bin := o.Marshal()
+		c.ObjSizes = append(c.ObjSizes, len(bin))
 		if err := a.sh.Put(o, bin); err != nil {
 			fatal("c46: source put: %v", err)
 		}
@@ -287,6 +489,13 @@ func c46One(r *rng, id int, forceKind int) c46Case {
 			kind = 2
 		default:
 			kind = 3
+		}
+	}
+	if spec.big && forceKind < 0 {
+		// size-class cases: the stream is the dump itself (3 of 4) or has damaged bodies
+		kind = 0
+		if r.coin(1, 4) {
+			kind = 1
 		}
 	}
 	if kind == 1 && len(bodies) == 0 {
@@ -370,7 +579,11 @@ func c46One(r *rng, id int, forceKind int) c46Case {
 	if c.Kind <= 1 {
 		c.Recs = flatOffsets(stream)
 	}
-	c.Sizes = genSizes(r, len(stream))
+	if spec.big {
+		c.Sizes = genSizesBig(r, stream)
+	} else {
+		c.Sizes = genSizes(r, len(stream))
+	}
 	if c.Sizes == nil {
 		c.Sizes = []int{}
 	}
@@ -425,7 +638,11 @@ func c46Main(args []string) {
 		seed, _ := strconv.ParseUint(args[1], 10, 64)
 		id, _ := strconv.Atoi(args[2])
 		r := newRng(seed ^ uint64(id)*0x100000001B3)
-		emit(c46One(r, id, -1))
+		if id >= c46BigIDBase {
+			emit(c46One(r, id, -1, c46BigSpecs(seed)[id-c46BigIDBase]))
+		} else {
+			emit(c46One(r, id, -1, c46Spec{}))
+		}
 		return
 	}
 	n := 60
@@ -438,6 +655,11 @@ func c46Main(args []string) {
 		budget = 12 * time.Minute
 	}
 	t0 := time.Now()
+	// size-class cases first (their Coq evaluation takes longest, the driver starts them first)
+	for k, sp := range c46BigSpecs(seed) {
+		id := c46BigIDBase + k
+		emit(c46One(newRng(seed^uint64(id)*0x100000001B3), id, -1, sp))
+	}
 	for i := 0; i < n; i++ {
 		if time.Since(t0) > budget {
 			// a broken tree can make Restore allocate gigabytes per record (garbage size
@@ -446,6 +668,6 @@ func c46Main(args []string) {
 			break
 		}
 		r := newRng(seed ^ uint64(i)*0x100000001B3)
-		emit(c46One(r, i, -1))
+		emit(c46One(r, i, -1, c46Spec{}))
 	}
 }
